@@ -492,10 +492,12 @@ def check_actions(repo, rep):
     # alias: the actions must treat them all alike
     fmod = repo.module('yaql.language.factory')
     std = fmod.func('YaqlFactory._standard_operators')
-    symbols = sorted({t.elts[0].value for t in ast.walk(std.node)
-                      if isinstance(t, ast.Tuple) and t.elts and isinstance(
-                          t.elts[0], ast.Constant) and isinstance(
-                          t.elts[0].value, str)} - {'[]', '{}'})
+    symbols = sorted({t.elts[0].value for t in ast.walk(fmod.tree)
+                      if isinstance(t, ast.Tuple) and len(t.elts) in (2, 3)
+                      and isinstance(t.elts[0], ast.Constant) and
+                      isinstance(t.elts[0].value, str) and isinstance(
+                          t.elts[1], (ast.Attribute, ast.Name))} -
+                     {'[]', '{}'})
     if len(symbols) < 15:
         raise AnalysisError('anchor vanished: operator symbols of '
                             '_standard_operators (%d found)' % len(symbols))
